@@ -138,6 +138,7 @@ Section SignRaw.
   Variable branch_ok : bytes -> bool.
   Variable derive_sk : bytes -> Z -> Z -> option sk.
   Variable sign : sk -> bytes -> bytes.           (* serialised DER signature *)
+  Variable zfix : bool.                           (* see Keys/Unlock.v *)
   Variable cfg : amcfg.
 
   Variable pk : Type.
@@ -149,9 +150,14 @@ Section SignRaw.
   Variable pub_at : addr -> pk.                     (* ManagedAddress.pubKey of the keystore's address *)
   Variable warmup : Z.                              (* consensus.MASSIP0002WarmUpHeight *)
   Variable env : outpoint -> look.
+  (* [pfix] = true: the repaired code (/repo commit 6d649d4: prevTxHeight — a pending previous
+     transaction counts as mined at synced height + 1 = [pending_height]); false reproduces the code
+     as first found, which dereferenced the nil block meta of a pending output (panic). *)
+  Variable pfix : bool.
+  Variable pending_height : Z.
 
   Local Notation amstate := (amstate sk).
-  Local Notation step := (step kdf digest shash open_box sk bytes branch_ok derive_sk sign cfg).
+  Local Notation step := (step kdf digest shash open_box sk bytes branch_ok derive_sk sign zfix cfg).
 
   (* the witness template of mass-core's engine for the three script classes:
      witness = [signature ++ [hash type]; redeem script], sha256(redeem) = program,
@@ -181,6 +187,12 @@ Section SignRaw.
   Variable engine : uinfo -> tx -> nat -> bool -> bool.
 
   Definition ip2_of (h : Z) : bool := warmup <=? h.    (* forks.EnforceMASSIP0002WarmUp *)
+  (* prevTxHeight(cacheMeta[...]); None = nil pointer dereference *)
+  Definition eff_height (u : uinfo) : option Z :=
+    match u_height u with
+    | Some h => Some h
+    | None => if pfix then Some pending_height else None
+    end.
 
   (* one iteration of the loop of signWitnessTx for input i *)
   Definition sign_input (st : amstate) (p : bytes) (f : flag) (t : tx) (i : nat)
@@ -210,8 +222,8 @@ Section SignRaw.
                 else (SOk, st, t) in
               match signed with
               | (SOk, st', t') =>
-                  (* "forks.EnforceMASSIP0002WarmUp(cacheMeta[...].Height)": nil for a pending output *)
-                  match u_height u with
+                  (* "forks.EnforceMASSIP0002WarmUp(w.prevTxHeight(cacheMeta[...]))" *)
+                  match eff_height u with
                   | None => (SPanic, st', t')
                   | Some h => if engine u t' i (ip2_of h) then (SOk, st', t') else (SErr SEngine, st', t')
                   end
@@ -251,7 +263,7 @@ Section SignRaw.
      output it spends *)
   Definition all_inputs_verify (t : tx) : Prop :=
     forall i inp, nth_error (t_ins t) i = Some inp ->
-      exists u h, env (in_prev inp) = LOut u /\ u_height u = Some h /\ engine u t i (ip2_of h) = true.
+      exists u h, env (in_prev inp) = LOut u /\ eff_height u = Some h /\ engine u t i (ip2_of h) = true.
 
   (* the projection compared with the implementation: per input, is a witness present *)
   Definition wit_shape (t : tx) : list nat := map (fun i => length (in_wit i)) (t_ins t).
